@@ -1,0 +1,28 @@
+//go:build verif
+
+// Contracts for package collectors (comment-only; compiled to nothing).
+// Read by /verif/govc; see /verif/DESIGN.md section 2.1 for the syntax.
+
+package collectors
+
+// The deque is a window [f, b] into a buffer of fixed size that never grows: each operation is safe exactly when
+// the cell it touches lies inside the buffer. Its only client (geom.Shortest) sizes the buffer at twice the number
+// of points it can ever push.
+
+//@ func Deque.PushFront
+//@ requires[|C01] d != nil && 1 <= d.f && d.f <= len(d.data)
+
+//@ func Deque.PushBack
+//@ requires[|C01] d != nil && -1 <= d.b && d.b+1 < len(d.data)
+
+//@ func Deque.PeekFront
+//@ requires[|C01] d != nil && 0 <= d.f+i-1 && d.f+i-1 < len(d.data)
+
+//@ func Deque.PeekBack
+//@ requires[|C01] d != nil && 0 <= d.b-i+1 && d.b-i+1 < len(d.data)
+
+//@ func Deque.PopFront
+//@ requires[|C01] d != nil && 0 <= d.f && d.f < len(d.data)
+
+//@ func Deque.PopBack
+//@ requires[|C01] d != nil && 0 <= d.b && d.b < len(d.data)
